@@ -38,7 +38,7 @@ RULE = ("histories = one space (SingleGrid, MultiGrid, HexSingleGrid, HexMultiGr
         "given as bound method / partial / callable object, legacy agents with pos behind a property, every drawing entry point with "
         "and without ax; IMPLEMENTATION + ORACLE ONLY streams (not model-evaluated): SCALE (6 histories with 255..5000 agents and 1-3 "
         "agents returning a key) and USER CODE (70 histories whose portrayal moves the portrayed agent, moves another agent, or raises "
-        "one of 7 exception types inside collect / draw_space / the component, each followed by ordinary draws); every history starts from the EMPTY space; non-trivial = at least one "
+        "one of 7 exception types inside collect / draw_space / the component, each followed by ordinary draws); 30 % of the histories continue on a copy.deepcopy / pickle round trip of (model, space) and then place / remove / move and draw with both back ends; every history starts from the EMPTY space; non-trivial = at least one "
         "drawing/check observation that is not a no-op and at least 3 operations; distinct = by SHA1 of the history")
 TRUSTED_BASE = [
     "Coq 8.16.1 kernel (coqc); vm_compute for the Examples, the refutation witnesses and the evaluation of the model in the correspondence",
@@ -314,6 +314,13 @@ def _gen_case(rng, cls=None, nops=None):
             ops.append(_gen_creator(rng))
         else:
             ops.append(_gen_split(rng))
+    if rng.random() < 0.3:
+        # continue on a deepcopy / pickle round trip of the model, then add / remove / move and draw with both back ends
+        k = rng.randint(1, max(1, len(ops) // 2))
+        x, y = _rand_addr(rng, sp)
+        x2, y2 = _rand_addr(rng, sp)
+        ops[k:k] = [["copy", rng.randrange(2)], ["place", n_ids + 1, rng.randrange(nk + 1), x, y], ["mpl"], ["altair"],
+                    ["remove", rng.randint(1, n_ids)], ["mpl"], ["move", rng.randint(1, n_ids + 1), x2, y2], ["mpl"], ["altair"]]
     c = {"space": sp, "portrayal": pt, "layer": layer, "ops": ops}
     if rng.random() < 0.2:
         c["shared_dict"] = True      # the portrayal function returns one cached dict per agent kind
@@ -1231,6 +1238,29 @@ def run_impl(case):
                 rows = collect_obs()
                 obs.append(_rows_obs(rows))
                 check_collect(i, rows)
+            elif kind == "copy":
+                # from here on the history continues on a COPY of the model / space (deepcopy or pickle round trip): agents are
+                # added, removed and moved on the copy and both back ends must draw exactly the agents currently in it
+                import copy
+                import pickle
+
+                bundle = (model, space, dict(agents), layer, dict(inf_layer))
+                new = None
+                if op[1] == 1 and not (variant.get("falsy") or variant.get("prop_agents")):
+                    try:
+                        new = pickle.loads(pickle.dumps(bundle))
+                    except (pickle.PicklingError, AttributeError, TypeError):
+                        new = None            # something of the harness itself is not picklable: use deepcopy
+                if new is None:
+                    new = copy.deepcopy(bundle)
+                model, space, a2, layer, i2 = new
+                agents.clear()
+                agents.update(a2)
+                inf_layer.clear()
+                inf_layer.update(i2)
+                rows = collect_obs()
+                obs.append(_rows_obs(rows))
+                check_collect(i, rows)
             elif kind == "setlayer":
                 _, x, y, v = op
                 if layer is None or not (0 <= x < sp["w"] and 0 <= y < sp["h"]):
@@ -2026,7 +2056,9 @@ def _coq_op(op):
     if k == "inflayer":
         return f"DrawInfLayer {L.b(op[1])} {L.b(op[2])}"
     if k in ("bulk", "ucmove", "ucother", "ucraise"):
-        return "Collect"        # scale histories are implementation + oracle only; never evaluated by the model
+        return "Collect"
+    if k == "copy":
+        return "Collect"        # a copy shows what the original showed; the history then continues on the copy        # scale histories are implementation + oracle only; never evaluated by the model
     if k == "check":
         sig = [_coq_param("self", "PosOrKw", False)] + [_coq_param(*p) for p in op[1]]
         return f"Check {L.lst(sig)} {L.zlist([NAMES.index(n) for n in op[2]])}"
